@@ -330,12 +330,66 @@ func (u *upgA) acceptKey() {
 	u.after(func() {
 		r.Check("C12.accept", shortFn(u.upgrade), "accept-key-of-validated-key", u.upgrade.Pos(), ok && n > 0, why)
 	})
+	acceptDigest(c, "C12.accept")
+	// (3) isValidChallengeKey
+	{
+		ok, why := true, "true only when base64.StdEncoding decodes the key without error to exactly 16 bytes"
+		nT := 0
+		c.explore("C12.accept", u.validKey, core.Opts{}, func(p *core.Path) {
+			if p.End != core.EndReturn || len(p.Results) != 1 {
+				return
+			}
+			res := p.Results[0]
+			if b, isB := res.BoolVal(); isB && !b {
+				return
+			}
+			nT++
+			var dec *core.Event
+			for i := range p.Events {
+				ev := &p.Events[i]
+				if ev.Kind == core.EvCall && ev.Static != nil && extName(ev.Static) == "(*encoding/base64.Encoding).DecodeString" {
+					dec = ev
+				}
+			}
+			if dec == nil {
+				ok, why = false, "a key can be accepted without being base64-decoded"
+				return
+			}
+			if e := dec.Args[0]; !(e.Kind == core.KLoad && e.Args[0].Kind == core.KGlobal && e.Args[0].Ref.(*ssa.Global).Name() == "StdEncoding") {
+				ok, why = false, "the key is not decoded with base64.StdEncoding"
+			}
+			if dec.Args[1].Kind != core.KParam {
+				ok, why = false, "the decoded value is not the key"
+			}
+			derr := p.X.ExtractOf(dec.Result, 1, nil)
+			dval := p.X.ExtractOf(dec.Result, 0, nil)
+			errNil := hasLit(p, len(p.Lits), true, func(t *core.Term) bool { return isEqNil(t, is(derr)) })
+			len16 := func(t *core.Term) bool {
+				return t.Kind == core.KEq && t.Args[0].Kind == core.KLen && t.Args[0].Args[0] == dval && func() bool { v, isC := t.Args[1].Int64(); return isC && v == 16 }()
+			}
+			lenOK := hasLit(p, len(p.Lits), true, len16) || len16(res)
+			if !errNil {
+				ok, why = false, "a key whose base64 decoding failed can be accepted"
+			}
+			if !lenOK {
+				ok, why = false, "a key that does not decode to exactly 16 bytes can be accepted"
+			}
+		})
+		r.Check("C12.accept", shortFn(u.validKey), "base64-of-16-bytes", u.validKey.Pos(), ok && nT > 0, why)
+	}
+}
+
+// acceptDigest: computeAcceptKey = base64.StdEncoding(sha1(key || keyGUID)) with the RFC 6455 GUID (shared by C12 and C14).
+func acceptDigest(c *Ctx, rule string) {
+	r := c.R
+	const rfcGUID = "258EAFA5-E914-47DA-95CA-C5AB0DC85B11"
+	acc := c.fn("computeAcceptKey")
 	// (2) computeAcceptKey shape
 	{
 		ok, why := true, "sha1.New; Write([]byte(key)); Write(keyGUID); base64.StdEncoding.EncodeToString(Sum(nil))"
 		keyGUID := c.P.Global("keyGUID")
 		nP := 0
-		c.explore("C12.accept", u.accept, core.Opts{}, func(p *core.Path) {
+		c.explore(rule, acc, core.Opts{}, func(p *core.Path) {
 			if p.End != core.EndReturn {
 				return
 			}
@@ -383,7 +437,7 @@ func (u *upgA) acceptKey() {
 				ok, why = false, "the digest is not encoded with base64.StdEncoding"
 			}
 		})
-		r.Check("C12.accept", shortFn(u.accept), "sha1-key-guid-base64", u.accept.Pos(), ok && nP > 0, why)
+		r.Check(rule, shortFn(acc), "sha1-key-guid-base64", acc.Pos(), ok && nP > 0, why)
 		// keyGUID initialiser and immutability
 		good, stores := false, 0
 		for _, f := range c.P.FuncList {
@@ -414,52 +468,6 @@ func (u *upgA) acceptKey() {
 				}
 			}
 		}
-		r.Check("C12.accept", "init", "keyGUID-is-RFC6455-GUID", keyGUID.Pos(), good && stores == 1, "keyGUID must be initialised once to "+rfcGUID+" and never modified")
-	}
-	// (3) isValidChallengeKey
-	{
-		ok, why := true, "true only when base64.StdEncoding decodes the key without error to exactly 16 bytes"
-		nT := 0
-		c.explore("C12.accept", u.validKey, core.Opts{}, func(p *core.Path) {
-			if p.End != core.EndReturn || len(p.Results) != 1 {
-				return
-			}
-			res := p.Results[0]
-			if b, isB := res.BoolVal(); isB && !b {
-				return
-			}
-			nT++
-			var dec *core.Event
-			for i := range p.Events {
-				ev := &p.Events[i]
-				if ev.Kind == core.EvCall && ev.Static != nil && extName(ev.Static) == "(*encoding/base64.Encoding).DecodeString" {
-					dec = ev
-				}
-			}
-			if dec == nil {
-				ok, why = false, "a key can be accepted without being base64-decoded"
-				return
-			}
-			if e := dec.Args[0]; !(e.Kind == core.KLoad && e.Args[0].Kind == core.KGlobal && e.Args[0].Ref.(*ssa.Global).Name() == "StdEncoding") {
-				ok, why = false, "the key is not decoded with base64.StdEncoding"
-			}
-			if dec.Args[1].Kind != core.KParam {
-				ok, why = false, "the decoded value is not the key"
-			}
-			derr := p.X.ExtractOf(dec.Result, 1, nil)
-			dval := p.X.ExtractOf(dec.Result, 0, nil)
-			errNil := hasLit(p, len(p.Lits), true, func(t *core.Term) bool { return isEqNil(t, is(derr)) })
-			len16 := func(t *core.Term) bool {
-				return t.Kind == core.KEq && t.Args[0].Kind == core.KLen && t.Args[0].Args[0] == dval && func() bool { v, isC := t.Args[1].Int64(); return isC && v == 16 }()
-			}
-			lenOK := hasLit(p, len(p.Lits), true, len16) || len16(res)
-			if !errNil {
-				ok, why = false, "a key whose base64 decoding failed can be accepted"
-			}
-			if !lenOK {
-				ok, why = false, "a key that does not decode to exactly 16 bytes can be accepted"
-			}
-		})
-		r.Check("C12.accept", shortFn(u.validKey), "base64-of-16-bytes", u.validKey.Pos(), ok && nT > 0, why)
+		r.Check(rule, "init", "keyGUID-is-RFC6455-GUID", keyGUID.Pos(), good && stores == 1, "keyGUID must be initialised once to "+rfcGUID+" and never modified")
 	}
 }
